@@ -34,7 +34,7 @@ CHECKS = [
 CHECKS += [
  {"id": "C01", "engine": "gridlint", "design_ref": "DESIGN.md 4/C01",
   "technique": "static formula analysis: constructors of the variable-substitution quadratures translated from their syntax trees into algebraic normal forms (exp/log/hyperbolic/sqrt generators), differentiated with respect to the index array and compared as normal forms",
-  "text": "Decides ONE clause of the statement: for the rules defined by a change of variable sampled at equidistant t = k h (TanhSinh, ExpSinh, LogExpSinh, ExpExp, SingleTanh, SingleExp, SingleArcSinhExp) the weights are the step times the derivative of the node map at each node -- proved for all step sizes and all k at once as a polynomial identity of normal forms; the polynomial Trefethen maps satisfy _derg2 = _g2', _derg3 = _g3' and every Trefethen class pairs a map with the derivative of the same map at the same nodes.  Does NOT decide exactness on polynomial classes, ordering of nodes, nodes inside the domain, the Gauss/Fejer/Clenshaw-Curtis rules or the strip map (numerical; in particular the defective Fejer series bounds are out of reach).",
+  "text": "Decides ONE clause of the statement: for the rules defined by a change of variable sampled at equidistant t = k h (TanhSinh, ExpSinh, LogExpSinh, ExpExp, SingleTanh, SingleExp, SingleArcSinhExp) the weights are the step times the derivative of the node map at each node -- proved for all step sizes and all k at once as a polynomial identity of normal forms; the Trefethen maps satisfy _derg2 = _g2', _derg3 = _g3', _dergstrip (interior branch) = d _gstrip/ds, and every Trefethen class pairs a map with the derivative of the same map at the same nodes.  Does NOT decide exactness on polynomial classes, ordering of nodes, nodes inside the domain, the Gauss/Fejer/Clenshaw-Curtis rules or the end-point branch of the strip map (numerical; in particular the defective Fejer series bounds are out of reach).",
   "note": _NOTE + " sympy serves as a polynomial-arithmetic library. The index array np.arange(...) is taken as a unit-step variable."},
  {"id": "C03", "engine": "gridlint", "design_ref": "DESIGN.md 4/C03",
   "technique": "static formula analysis: the closed-form methods are translated from their syntax trees into algebraic normal forms (quotients of polynomials over power/log/exp generators with irreducible bases), differentiated and compared as normal forms (zero polynomial = proof for all parameters); plus sibling value numbering, definite assignment and typestate rules",
